@@ -12,7 +12,7 @@ func GlobExpand(paths []string, recursive bool) <-chan string {
 	go func() {
 		for _, p := range paths {
 			if recursive && isDir(p) {
-				filepath.Walk(p, func(walkPath string, info os.FileInfo, err error) error {
+				filepath.Walk(walkRoot(p), func(walkPath string, info os.FileInfo, err error) error {
 					if err != nil {
 						return err
 					}
@@ -40,6 +40,16 @@ func GlobExpand(paths []string, recursive bool) <-chan string {
 		close(c)
 	}()
 	return c
+}
+
+// walkRoot makes a directory argument that is a symbolic link resolve to its directory.
+// filepath.Walk does not follow symbolic links, not even for its root, but a path with
+// a trailing separator always refers to the directory itself (as isDir saw it)
+func walkRoot(path string) string {
+	if path == "" || os.IsPathSeparator(path[len(path)-1]) {
+		return path
+	}
+	return path + string(filepath.Separator)
 }
 
 func isDir(path string) bool {
